@@ -38,12 +38,14 @@ CLAIMED = {
             'piece extent must reproduce the piece; ordered pairs/triples (thorough: quadruples) of distinct files must equal '
             'numpy.concatenate in argument order; IOAPI files (gridded/boundary/masked/disk, 3-6 start instants, 2-5 steps) '
             'split along TSTEP into every composition and stacked again must reproduce data, TFLAG and SDATE/STIME/TSTEP; '
+            'entry points: file.stack with a list / tuple / one-shot iterator of in-memory or netCDF-backed pieces, '
+            'stack_files, pncmfopen, netcdf.open_mfdataset with a named and an auto-detected dimension; '
             'the list object handed to each stacking entry point must be unchanged afterwards.',
             'numpy.concatenate trusted; dimension order not compared; the disk form compares dims/data/masks only',
             'DESIGN.md section 4 C04'),
     'C01': ('B', 'model_checking',
             'explicit-state breadth-first search over operation sequences on real file objects (canonical-hash deduplication, history replay)',
-            'BFS from 18 seed files (CF file with bounds variables, small universe incl. masked/char/scalar/coordinate/unlimited, IOAPI gridded/boundary/'
+            'BFS from 19 seed files (CF file with bounds variables, a variable carrying one dimension on two axes, small universe incl. masked/char/scalar/coordinate/unlimited, IOAPI gridded/boundary/'
             'disk-backed, netCDF-backed, CAMx and ICARTT reader outputs) under a state-derived menu of ~30 operation '
             'instances covering every public transformation, to depth 2 (quick) / 3 (thorough). Every state reached '
             'is checked for well-formedness (dimension names exist, shapes match, unlimited flags survive, IOAPI '
@@ -113,7 +115,9 @@ CLAIMED = {
             '13 operators x 2-3 array shapes with operands holding all 81 value pairs of an adversarial alphabet '
             '(zero, +-1, halves, 1e30, 1e-30, integer extremes): result must equal numpy on the raw data with operand '
             'masks united and non-finite cells masked; coordinate variables must come unchanged from the left operand. '
-            'eval: 14 programs x copyall. mask: all 256 predicate subsets x dims given/omitted x coords flag.',
+            'a right operand broadcast along a length-1 dimension (masks included). eval: 14 programs x copyall. mask: '
+            'all 256 predicate subsets x dims given/omitted x coords flag with fractional thresholds, on float, signed '
+            'and unsigned integer variables and on cells within 5e-6 of the equal/values thresholds.',
             'numpy is the reference for elementwise arithmetic; +-0 not distinguished; integer division by zero '
             'cells not compared', 'DESIGN.md section 4 C06'),
     'C07': ('A', 'model_checking',
@@ -181,7 +185,7 @@ CLAIMED = {
             'bit, TFLAG/ETFLAG instants, grid and file header). Direction 2: library writer output (from the reader '
             'object and from hand-built in-memory files without ETFLAG / edge definitions and with non-contiguous '
             'arrays) is walked by an independent record parser (marker agreement, exact tiling, header counts) and '
-            'decoded back to the recipe.',
+            'decoded back to the recipe; the file must be complete when the writer returns.',
             'layouts of DESIGN Appendix A, validated byte-exactly against every bundled sample at worker start-up',
             'DESIGN.md section 4 C09'),
     'C13': ('A', 'model_checking',
